@@ -8,7 +8,7 @@ COMMON_TRUSTED = [
 ]
 
 PROPS = {}
-HOOK_COMMITS = ["f0964c3", "f0ee85c", "a38392f"]
+HOOK_COMMITS = ["f0964c3", "f0ee85c", "a38392f", "da161e5"]
 NOT_BUILT_REASON = "no check registered yet: the Lean model/theorems and the correspondence harness for this property have not been built in this session (work in progress, see DESIGN.md §12); the technique applies"
 
 PROPS["C05"] = {
@@ -247,4 +247,22 @@ PROPS["C09"] = {
     "trusted_base": ["extract/x509.go table extraction", "harness/c09.go template generator and field comparison", "crypto/rsa, crypto/ecdsa, encoding/asn1 (stdlib)"],
     "assumptions": [],
     "not_proved": ["ext_roundtrip_* (key-usage bit reversal, basic constraints, name constraints encoders) as Lean theorems", "verify_only_issuer over an ideal signature scheme (decided by the other-key and tamper sweeps)"],
+}
+
+PROPS["C17"] = {
+    "modules": ["Gmsm.Props.C17"],
+    "theorems": [
+        "Props.C17.length_roundtrip", "Props.C17.encodeLength_long", "Props.C17.unpad_pad", "Props.C17.unpad_sound",
+        "Props.C17.bmp_roundtrip", "Props.C17.bmpString_injective", "Props.C17.bmpString_rejects_astral",
+        "Props.C17.verify_signer_iff", "Props.C17.verify_iff", "Props.C17.content_bound", "Props.C17.accepted_is_signed",
+        "Props.C17.tables_cover_own_output", "Props.C17.recipient_recovers", "Props.C17.non_recipient_rejected",
+        "Props.C17.other_key_partial",
+    ],
+    "gen_items": [],
+    "level": "proof",
+    "claim": "The parts of the containers that the library implements itself are modelled and proved for every input: the BER->DER transcoder's length octets read back as the same definite length on both sides of the 127/128 boundary (length_roundtrip, below 2^31), the enveloped-data block padding is removed exactly (unpad_pad, unpad_sound), BMPString passwords round-trip and are injective for every BMP string and astral characters are refused, the signed-data verdict is characterised outright (verify_signer_iff / verify_iff: known digest, signer certificate present, known algorithm pair, signature by the certified key over the content or over the DER SET of attributes whose message-digest attribute equals the digest of the content) with content_bound (another content is accepted only on a digest collision), and recipient handling (recipient_recovers for every recipient of a list with distinct issuer+serial, non_recipient_rejected). The models are executed against the real code on every run (ber2der on library-made DER, hand-made BER, mutated and 1000-deep inputs; pad/unpad; bmpString/decodeBMPString; Verify's verdict on 80 harness-built SM2 signed-data objects over 10 tamper kinds x attributes x detached x both SM3 OIDs), and whole containers are decided by intrinsic oracles on the real code: PKCS7Encrypt/PKCS7EncryptSM2 x {DES-CBC, AES-128-GCM} x {C1C3C2, C1C2C3} x 1..3 recipients x contents 0..64 KiB incl. lengths putting TLVs on the 127/128 boundary: every recipient recovers the content, a non-recipient and a recipient certificate with another key do not, every sampled single-byte corruption of an AES-GCM container gives an error or the same content; RSA SignedData through NewSignedData/AddSigner/Finish and SM2 SignedData assembled by the harness verify, and are refused after each tamper; pkcs12.Encode/DecodeAll with empty, ASCII, Cyrillic, CJK, 31/32/40/100-character passwords return the same key and certificate, refuse passwords differing in the last character, and no sampled single-byte corruption decodes to another key or certificate.",
+    "note": "Partial: the cryptography under the containers (SM2/RSA key wrap, DES/AES, HMAC-SHA1, RC2/3DES PBE, PKCS#12 KDF, encoding/asn1) is exercised by the intrinsic oracles, not modelled; in the theorems it appears as parameters (Prims / EPrims with CorrectE). 'By no other key' is proved only relative to the wrap scheme refusing foreign keys (other_key_partial). DES-CBC content encryption is unauthenticated, so 'a corrupted container never yields other content' is asserted for AES-GCM only (see DESIGN.md, false alarms). A full ber2der(encodeTo o) = encodeTo o theorem over the recursive object type is not proved.",
+    "trusted_base": ["Model.BER / Model.PKCS7 tied by the ber2der/p7pad/p7unpad/bmp/unbmp/p7v ops (exact output equality) and by intrinsic oracles p7env/p7sign/p12 in harness/c17.go", "hooks x509.VerifBer2der/VerifPad/VerifUnpad, pkcs12.VerifBmpString/VerifDecodeBMPString", "encoding/asn1, crypto/* (stdlib)"],
+    "assumptions": ["CorrectE: unwrap(wrap k) = k, dec(enc m) = m for the right keys"],
+    "not_proved": ["ber2der idempotent on DER as a theorem over Obj", "PKCS#12 MAC / PBE as theorems (stdlib crypto)", "no-other-key as an unconditional statement"],
 }
